@@ -284,7 +284,7 @@ func TestVerifC07(t *testing.T) {
 	rapid.Check(t, func(rt *rapid.T) {
 		c := genC07(rt)
 		v, nt, inc := runC07(c)
-		if inc {
+		if inc || (v != nil && vFlapsSinceMark() > 0) {
 			col.Inconclusive()
 			return
 		}
